@@ -208,6 +208,9 @@ class Ctx:
 
     # ---------------------------------------------------------------- verdicts
     def violation(self, sig, what, replay_obj):
+        if sig == "TOOL" or sig.endswith(":TOOL"):
+            # a harness could not set its scenario up: never a verdict about the library
+            raise ToolError("harness reported tool trouble: %s" % what)
         self.violations.append({"sig": sig, "what": what, "replay": replay_obj})
 
     def count(self, n=1):
